@@ -254,6 +254,61 @@ def run(F, rep):
                 n_m += 1
                 rep.check(not inside, 'C10.M1', '%s|%s' % (f.short, e['c'][0]['n']), f.where(e), '%s: the candidates container `%s` is re-created in every iteration of the outer matching loop, so a matched partner is offered again to the next child' % (f.short, e['c'][0]['n']),
                           'declared before the outer loop')
+    # M2: a partner is only ever taken from the still-unmatched candidates
+    rep.rule('C10.M2', 'inside a one-to-one matching loop every child fetched from the other side by index is fetched at an index taken FROM the container of still-unmatched candidates (an element of it, the parameter of a lambda run over it): '
+                       'a shortcut that tries "the same position first" compares against a partner that an earlier child may already have taken, so one child of the other side is matched twice and equals() becomes asymmetric')
+    from engines import _loop_of_var
+
+    def derives(f, e, ud, depth=0):
+        if depth > 6:
+            return False
+        for r in walk(e):
+            if r.get('k') != 'Ref':
+                continue
+            if r.get('d') == ud:
+                return True
+            if r.get('dk') == 'local':
+                lv = _loop_of_var(f).get(r.get('d'))
+                if lv is not None:
+                    if derives(f, role(lv, 'range'), ud, depth + 1):
+                        return True
+                    continue
+                i_ = single_def(f, r.get('d'))
+                if i_ is not None and derives(f, i_, ud, depth + 1):
+                    return True
+            if r.get('dk') == 'parm':
+                lam = f.enclosing_lambda(r)
+                while lam is not None:
+                    if any(p_.get('d') == r.get('d') for p_ in lam.get('params', [])):
+                        host = next((a for a in f.ancestors(lam) if a.get('k') == 'Call'), None)
+                        if host is not None and any(derives(f, a, ud, depth + 1) for a in host.get('c', []) if not any(x is lam for x in walk(a))):
+                            return True
+                        break
+                    lam = f.enclosing_lambda(lam)
+        return False
+    n_m2 = 0
+    for f in scope:
+        for e in f.walk():
+            if e.get('k') == 'Call' and e.get('mc') and e.get('fn') == 'erase' and e['c'][0].get('k') == 'Ref' and e['c'][0].get('dk') == 'local':
+                loops = [a for a in f.ancestors(e) if a.get('k') in ('For', 'RangeFor', 'While', 'Do')]
+                if not loops:
+                    continue
+                outer, ud, un = loops[-1], e['c'][0]['d'], e['c'][0]['n']
+                for c in walk(outer):
+                    if c.get('k') == 'Call' and not c.get('opc') and c.get('c'):
+                        if c.get('mc') and is_this_like(c['c'][0]):
+                            continue
+                        if c.get('mc') and c['c'][0].get('k') == 'Ref' and c['c'][0].get('d') == ud:
+                            continue
+                        args = c['c'][1:] if c.get('mc') else c['c']
+                        idx = [a for a in args if (a.get('t') or a.get('rt') or '').replace('const ', '') in ('unsigned long', 'size_t', 'int', 'long')]
+                        if not idx or (c.get('callee') or '').startswith('std::'):
+                            continue
+                        n_m2 += 1
+                        rep.check(all(derives(f, a, ud) for a in idx), 'C10.M2', '%s|%s' % (f.short, render(c)[:50]), f.where(c),
+                                  '%s: `%s` fetches a partner at an index that does not come from the unmatched candidates `%s`: that partner may already have been matched by an earlier child' % (f.short, render(c)[:60], un), 'index taken from ' + un)
+    if n_m2 < 5:
+        raise AnalysisBroken('C10.M2: only %d indexed fetches found inside one-to-one matching loops (5 confirmed)' % n_m2)
     if n_m < 2:
         raise AnalysisBroken('C10.M1: one-to-one matching sites vanished (%d found, Units::doEquals and equalEntities confirmed)' % n_m)
 
